@@ -50,7 +50,8 @@ Record ccase := {
 }.
 
 (** ** Equalities *)
-Definition cond_eqb (a b : cond) : bool := (c_type a =? c_type b) && (c_status a =? c_status b) && (c_obsgen a =? c_obsgen b).
+Definition cond_eqb (a b : cond) : bool :=
+  (c_type a =? c_type b) && (c_status a =? c_status b) && (c_obsgen a =? c_obsgen b) && Bool.eqb (c_ok a) (c_ok b).
 Definition obj_eqb (a b : obj) : bool :=
   data_eqb (o_data a) (o_data b) && Bool.eqb (o_label a) (o_label b) && (o_ctrl a =? o_ctrl b) && (o_gen a =? o_gen b)
   && option_eqb N.eqb (o_sobs a) (o_sobs b) && list_eqb cond_eqb (o_conds a) (o_conds b).
@@ -92,7 +93,7 @@ Definition sobs_eqb (a b : sobs) : bool :=
 
 (** ** Agreement: the model run over the scenario reproduces every observation. *)
 Definition model_run (c : ccase) : list (sobs * cworld) :=
-  run render_code scope_tbl (cc_ivres c) (cc_ivopt c) (cc_init c) (cc_steps c).
+  run render_code scope_tbl ns_escalation (cc_ivres c) (cc_ivopt c) (cc_init c) (cc_steps c).
 
 (** The reference rendering as the model computes it: the sources of the final world collected without
     any admission check, rendered, key as written in the template. *)
@@ -149,11 +150,6 @@ Definition c_rendered (pre : cworld) (t : tmpl tcode) : option rres :=
 Definition src_ref (s : source) : key := (s_kind s, s_ns s, s_name s).
 Definition src_obj (w : cworld) (t : tmpl tcode) (s : source) : option obj := lookup (nkey SC (src_key (t_ns t) s)) (w_store w).
 
-(** The shape of the known finding: a cluster-scoped kind named with the template's own namespace. *)
-Definition guard_pass (pre : cworld) (t : tmpl tcode) : bool :=
-  existsb (src_rootown SC (t_ns t)) (t_sources t)
-  || match c_rendered pre t with Some (RObj k _ _) => rootown SC (t_ns t) k | _ => false end.
-
 (** 1. output_is_render *)
 Definition cl_render (pre : cworld) (t : tmpl tcode) (r : pres) : bool :=
   forallb (fun kd => match c_expected t pre with Some e => kd_eqb e kd | None => false end) (target_writes (p_evs r))
@@ -178,6 +174,7 @@ Definition cl_nsbound (pre post : cworld) (t : tmpl tcode) (r : pres) : bool :=
   let tns := t_ns t in
   (tns =? 0)
   || (forallb (in_bounds SC tns) (label_patches (p_evs r))
+      && forallb (is_namespaced SC) (watch_calls (p_evs r))
       && forallb (fun kd => in_bounds SC tns (fst kd)) (target_writes (p_evs r))
       && (if existsb (fun s => oob SC tns (src_ref s)) (t_sources t)
           then is_nil (target_writes (p_evs r)) && negb (post_invalid post =? 0) else true)
@@ -218,77 +215,70 @@ Definition cl_enqueue (pre : cworld) (k : key) (changed : obj -> bool) (b : bool
   | None => true
   end.
 
-(** All nine clauses of one step; [guard] tells whether the step has the shape of the known finding. *)
-Definition step_clauses (ivres ivopt : N) (pre : cworld) (s : cstep) (o : sobs) (post : cworld) : bool * list bool :=
+(** All nine clauses of one step. *)
+Definition step_clauses (ivres ivopt : N) (pre : cworld) (s : cstep) (o : sobs) (post : cworld) : list bool :=
   let nine := [true; true; true; true; true; true; true; true; true] in
   match s, o with
   | SPass, OPass r =>
       match w_tmpl pre with
-      | None => (false, [is_nil (p_evs r); true; true; true; true; true; true; true; true])
+      | None => [is_nil (p_evs r); true; true; true; true; true; true; true; true]
       | Some t =>
-          if t_del t then (false, [true; true; true; true; true; cl_delete post t r; true; true; true])
-          else (guard_pass pre t,
-                [cl_render pre t r; cl_required ivres pre post t r; cl_optional ivopt pre t r; cl_unparsable pre post t r;
-                 cl_nsbound pre post t r; true;
-                 negb (successful pre post r) || cl_tracks post t;
-                 negb (successful pre post r) || cl_quiescent post t r; true])
+          if t_del t then [true; true; true; true; true; cl_delete post t r; true; true; true]
+          else [cl_render pre t r; cl_required ivres pre post t r; cl_optional ivopt pre t r; cl_unparsable pre post t r;
+                cl_nsbound pre post t r; true;
+                negb (successful pre post r) || cl_tracks post t;
+                negb (successful pre post r) || cl_quiescent post t r; true]
       end
-  | SPut k d _, OEnq b => (false, [true; true; true; true; true; true; true; true; cl_enqueue pre k (fun o => negb (data_eqb (o_data o) d)) b])
-  | SDel k, OEnq b => (false, [true; true; true; true; true; true; true; true; cl_enqueue pre k (fun _ => true) b])
-  | SPoke _ _ _, ONone | SEdit _ _, ONone | STDel, ONone | SEnv _, ONone => (false, nine)
-  | _, _ => (false, [false; true; true; true; true; true; true; true; true])      (* observation of the wrong shape *)
+  | SPut k d _, OEnq b => [true; true; true; true; true; true; true; true; cl_enqueue pre k (fun o => negb (data_eqb (o_data o) d)) b]
+  | SDel k, OEnq b => [true; true; true; true; true; true; true; true; cl_enqueue pre k (fun _ => true) b]
+  | SPoke _ _ _, ONone | SEdit _ _, ONone | STDel, ONone | SEnv _, ONone => nine
+  | _, _ => [false; true; true; true; true; true; true; true; true]      (* observation of the wrong shape *)
   end.
 
-Fixpoint steps_clauses (ivres ivopt : N) (pre : cworld) (ss : list cstep) (os : list (sobs * cworld)) : list (bool * list bool) :=
+Fixpoint steps_clauses (ivres ivopt : N) (pre : cworld) (ss : list cstep) (os : list (sobs * cworld)) : list (list bool) :=
   match ss, os with
   | s :: ss', (o, post) :: os' => step_clauses ivres ivopt pre s o post :: steps_clauses ivres ivopt post ss' os'
   | [], [] => []
-  | _, _ => [(false, [false; true; true; true; true; true; true; true; true])]
+  | _, _ => [[false; true; true; true; true; true; true; true; true]]
   end.
 
 (** The reference rendering of the final sources through the real transformer, when the history ends
     with a successful pass: the stored target carries exactly that body. *)
-Definition final_clause (c : ccase) : bool * bool :=
+Definition final_clause (c : ccase) : bool :=
   match rev (cc_steps c), rev (cc_obs c) with
   | SPass :: ss', (OPass r, post) :: os' =>
       let pre := last_world (cc_init_obs c) (rev os') in
       match live pre with
       | Some t =>
           if successful pre post r && negb (self_write t r)
-          then (guard_pass pre t,
-                match cc_ref c with
-                | Some (k0, d) => match lookup (eff_key (t_ns t) k0) (w_store post) with
-                                  | Some o => data_eqb (o_data o) d | None => false end
-                | None => false
-                end)
-          else (false, true)
-      | None => (false, true)
+          then match cc_ref c with
+               | Some (k0, d) => match lookup (eff_key (t_ns t) k0) (w_store post) with
+                                 | Some o => data_eqb (o_data o) d | None => false end
+               | None => false
+               end
+          else true
+      | None => true
       end
-  | _, _ => (false, true)
+  | _, _ => true
   end.
 
-Definition clause_n (n : nat) (guarded : bool) (l : list (bool * list bool)) : bool :=
-  forallb (fun gc => (guarded && fst gc) || nth n (snd gc) false) l.
+Definition clause_n (n : nat) (l : list (list bool)) : bool := forallb (fun c => nth n c false) l.
 
-Definition all_clauses (c : ccase) : list (bool * list bool) :=
+Definition all_clauses (c : ccase) : list (list bool) :=
   steps_clauses (cc_ivres c) (cc_ivopt c) (cc_init_obs c) (cc_steps c) (cc_obs c).
 
-Definition clause_vector (guarded : bool) (c : ccase) : list bool :=
+Definition clause_vector (c : ccase) : list bool :=
   let l := all_clauses c in
-  let f := final_clause c in
-  [clause_n 0 guarded l; clause_n 1 guarded l; clause_n 2 guarded l; clause_n 3 guarded l; clause_n 4 guarded l;
-   clause_n 5 guarded l; clause_n 6 guarded l; clause_n 7 guarded l && ((guarded && fst f) || snd f); clause_n 8 guarded l].
+  [clause_n 0 l; clause_n 1 l; clause_n 2 l; clause_n 3 l; clause_n 4 l;
+   clause_n 5 l; clause_n 6 l; clause_n 7 l && final_clause c; clause_n 8 l].
 
-(** The monitor proper: every clause, on every step that does not have the shape of the known finding. *)
-Definition monitor (c : ccase) : bool := forallb (fun b => b) (clause_vector true c).
-(** The property as stated, without that exception (refuted for the model, see C18_namespace_bound_refuted). *)
-Definition monitor_strict (c : ccase) : bool := forallb (fun b => b) (clause_vector false c).
+(** The monitor: every clause on every step, no exception. *)
+Definition monitor (c : ccase) : bool := forallb (fun b => b) (clause_vector c).
 
 Definition judge (c : ccase) :=
-  let g := clause_vector true c in let s := clause_vector false c in
+  let g := clause_vector c in
   (agree c,
-   (nth 0 g false, nth 1 g false, nth 2 g false, nth 3 g false, nth 4 g false, nth 5 g false, nth 6 g false, nth 7 g false, nth 8 g false),
-   (nth 0 s false, nth 1 s false, nth 2 s false, nth 3 s false, nth 4 s false, nth 5 s false, nth 6 s false, nth 7 s false, nth 8 s false)).
+   (nth 0 g false, nth 1 g false, nth 2 g false, nth 3 g false, nth 4 g false, nth 5 g false, nth 6 g false, nth 7 g false, nth 8 g false)).
 
 (** ** Soundness of the monitor for the model: whatever the scenario, the model's own run satisfies
     every clause on every step that does not have the shape of the known finding. *)
@@ -304,43 +294,32 @@ Proof. now intros ->. Qed.
 
 Section Sound.
   Variables ivres ivopt : N.
-  Notation pass := (pass R SC ivres ivopt).
-  Notation do_step := (do_step R SC ivres ivopt).
-  Notation run := (run R SC ivres ivopt).
-  Notation final := (final R SC ivres ivopt).
+  Notation pass := (pass R SC ns_escalation ivres ivopt).
+  Notation do_step := (do_step R SC ns_escalation ivres ivopt).
+  Notation run := (run R SC ns_escalation ivres ivopt).
+  Notation final := (final R SC ns_escalation ivres ivopt).
 
   Section Live.
     Variables (w : cworld) (t : tmpl tcode) (w' : cworld) (r : pres).
     Hypothesis Ht : w_tmpl w = Some t.
     Hypothesis Hd : t_del t = false.
     Hypothesis Hp : pass w = (w', r).
-    Hypothesis Hg : guard_pass w t = false.
     Let tns := t_ns t.
 
-    Lemma g_roots : forall s, In s (t_sources t) -> src_rootown SC tns s = false.
-    Proof. apply orb_false_iff in Hg. destruct Hg as [H _]. now apply existsb_false_forall. Qed.
-
     Lemma g_scan : scan SC (pfbad SC tns) (w_store w) tns (t_sources t) [] false = c_scan w t.
-    Proof.
-      unfold c_scan. apply scan_ext. intros s Hin. fold tns. rewrite src_bad_pf, (g_roots s Hin), orb_false_r. reflexivity.
-    Qed.
-
-    Lemma g_target cfg rt k d orefs : c_scan w t = ScOk cfg rt -> R (t_code t) cfg (w_env w) = RObj k d orefs -> rootown SC tns k = false.
-    Proof.
-      intros Hs Hr. apply orb_false_iff in Hg. destruct Hg as [_ H]. unfold c_rendered in H. now rewrite Hs, Hr in H.
-    Qed.
+    Proof. unfold c_scan. apply scan_ext. intros s Hin. fold tns. now rewrite src_bad_pf. Qed.
 
     Lemma live_w : live w = Some t.
     Proof. unfold live. now rewrite Ht, Hd. Qed.
 
     Lemma expected_inv k d : c_expected t w = Some (k, d) ->
       exists cfg rt k0 orefs, c_scan w t = ScOk cfg rt /\ R (t_code t) cfg (w_env w) = RObj k0 d orefs /\
-                              pf_violation SC tns k0 orefs = false /\ k = eff_key tns k0.
+                              pf_violation SC ns_escalation tns k0 orefs = false /\ k = eff_key tns k0.
     Proof.
       unfold c_expected, expected. fold (c_scan w t). destruct (c_scan w t) as [| | |cfg rt]; try discriminate.
       destruct (R (t_code t) cfg (w_env w)) as [| |k0 body orefs] eqn:Er; try discriminate.
       destruct (tgt_bad SC (t_ns t) k0 orefs) eqn:Eb; [discriminate|]. intros H. injection H as <- <-.
-      exists cfg, rt, k0, orefs. rewrite bad_pf in Eb. apply orb_false_iff in Eb. tauto.
+      exists cfg, rt, k0, orefs. rewrite bad_pf in Eb. auto.
     Qed.
 
     Lemma s_render : cl_render w t r = true.
@@ -349,7 +328,7 @@ Section Sound.
       - apply forallb_forall. intros [k d] Hin.
         destruct (output_is_render _ _ _ _ _ _ _ _ Ht Hd Hp k d Hin) as (cfg & rt & k0 & orefs & Hs & Hr & Hpf & -> & _).
         fold tns in Hs, Hpf. rewrite g_scan in Hs.
-        unfold c_expected, expected. fold (c_scan w t). rewrite Hs, Hr, bad_pf. fold tns. rewrite Hpf, (g_target _ _ _ _ _ Hs Hr).
+        unfold c_expected, expected. fold (c_scan w t). rewrite Hs, Hr, bad_pf. fold tns. rewrite Hpf.
         apply kd_eqb_refl.
       - destruct (c_expected t w) as [[k d]|] eqn:Ee; [|reflexivity].
         destruct (expected_inv _ _ Ee) as (cfg & rt & k0 & orefs & Hs & Hr & Hpf & ->).
@@ -391,18 +370,20 @@ Section Sound.
     Lemma s_nsbound : cl_nsbound w w' t r = true.
     Proof.
       unfold cl_nsbound. fold tns. destruct (tns =? 0) eqn:E0; [reflexivity|]. cbn [orb].
+      assert (Hns : tns <> 0) by now apply N.eqb_neq.
       rewrite !andb_true_iff. repeat split.
-      - apply forallb_forall. intros k Hin. eapply patches_in_bounds; eauto. exact g_roots.
+      - apply forallb_forall. intros k Hin. eapply patches_in_bounds; eauto.
+      - apply forallb_forall. intros kd Hin. eapply watches_in_bounds; eauto.
       - apply forallb_forall. intros [k d] Hin. eapply writes_in_bounds; eauto.
       - destruct (existsb _ (t_sources t)) eqn:Ex; [|reflexivity].
         apply existsb_exists in Ex. destruct Ex as (s & Hin & Hs).
-        destruct (source_out_of_bounds_no_write _ _ _ _ _ _ _ _ Ht Hd Hp g_roots) as (-> & _ & t' & Ht' & Hi).
+        destruct (source_out_of_bounds_no_write _ _ _ _ _ _ _ _ Ht Hd Hp) as (-> & _ & t' & Ht' & Hi).
         { exists s. split; [assumption|]. unfold src_bad. fold tns. unfold src_ref in Hs. now rewrite Hs. }
         unfold post_invalid. rewrite Ht', Hi. reflexivity.
       - unfold c_rendered. destruct (c_scan w t) as [| | |cfg rt] eqn:Es; try reflexivity.
         destruct (R (t_code t) cfg (w_env w)) as [| |k d orefs] eqn:Er; try reflexivity.
         destruct (oob SC tns k) eqn:Eo; [|reflexivity].
-        pose proof (g_target _ _ _ _ _ Es Er) as Hro. rewrite <- g_scan in Es.
+        rewrite <- g_scan in Es.
         destruct (target_out_of_bounds_no_write _ _ _ _ _ _ _ _ Ht Hd Hp _ _ _ _ _ Es Er) as (-> & _ & t' & Ht' & Hi); auto.
         { unfold tgt_bad. fold tns. rewrite Eo. now rewrite orb_true_r. }
         unfold post_invalid. rewrite Ht', Hi. reflexivity.
@@ -434,7 +415,7 @@ Section Sound.
     Proof.
       destruct (successful w w' r) eqn:Es; [|reflexivity]. cbn. destruct (successful_inv Es) as [He Hi].
       unfold cl_quiescent. destruct (self_write t r) eqn:Esw; [reflexivity|]. cbn.
-      destruct (success_equals_render _ _ _ _ _ _ _ _ Ht Hd Hp g_roots He Hi (self_write_false Esw))
+      destruct (success_equals_render _ _ _ _ _ _ _ _ Ht Hd Hp He Hi (self_write_false Esw))
         as (t' & k & d & o & H1 & H2 & H3 & H4 & _).
       rewrite H1. unfold c_expected. rewrite H2, H3, H4. apply data_eqb_refl.
     Qed.
@@ -444,25 +425,24 @@ Section Sound.
 
   Lemma step_sound w s :
     let '(w', o) := do_step w s in
-    let gc := step_clauses ivres ivopt w s o w' in fst gc = true \/ snd gc = nine_true.
+    step_clauses ivres ivopt w s o w' = nine_true.
   Proof.
     destruct s as [k d lbl|k|k so cs|srcs c| |e|]; cbn [Template.do_step].
     - destruct (lookup k (w_store w)) as [o|] eqn:El.
-      + destruct (data_eqb (o_data o) d) eqn:Ed; right; cbn; unfold cl_enqueue; rewrite El, Ed; cbn.
+      + destruct (data_eqb (o_data o) d) eqn:Ed; cbn; unfold cl_enqueue; rewrite El, Ed; cbn.
         * now rewrite andb_false_r.
         * unfold enqueued. rewrite andb_true_r. destruct (o_label o && watched (k_kind k) me (w_watch w)); reflexivity.
-      + right. cbn. unfold cl_enqueue. now rewrite El.
-    - destruct (lookup k (w_store w)) as [o|] eqn:El; right; cbn; unfold cl_enqueue; rewrite El; [|reflexivity].
+      + cbn. unfold cl_enqueue. now rewrite El.
+    - destruct (lookup k (w_store w)) as [o|] eqn:El; cbn; unfold cl_enqueue; rewrite El; [|reflexivity].
       unfold enqueued. rewrite andb_true_r. destruct (o_label o && watched (k_kind k) me (w_watch w)); reflexivity.
-    - destruct (lookup k (w_store w)); right; reflexivity.
-    - destruct (w_tmpl w); right; reflexivity.
-    - destruct (w_tmpl w) as [t|]; [destruct (t_fin t)|]; right; reflexivity.
-    - right; reflexivity.
+    - destruct (lookup k (w_store w)); reflexivity.
+    - destruct (w_tmpl w); reflexivity.
+    - destruct (w_tmpl w) as [t|]; [destruct (t_fin t)|]; reflexivity.
+    - reflexivity.
     - destruct (pass w) as [w' r] eqn:Ep. cbn [step_clauses].
       destruct (w_tmpl w) as [t|] eqn:Et.
       + destruct (t_del t) eqn:Ed.
-        * right. cbn [fst snd].
-          destruct (delete_frees _ _ _ _ _ _ _ _ Et Ed Ep) as (Hev & _ & _ & _ & _ & Hme & _ & Hfin & _).
+        * destruct (delete_frees _ _ _ _ _ _ _ _ Et Ed Ep) as (Hev & _ & _ & _ & _ & Hme & _ & Hfin & _).
           unfold cl_delete. rewrite Hev.
           assert (Hw : forallb (fun p => negb (snd p =? me)) (w_watch w') = true).
           { apply forallb_forall. intros [kd o] Hin. cbn. destruct (o =? me) eqn:E; [|reflexivity]. apply N.eqb_eq in E. subst o.
@@ -471,11 +451,11 @@ Section Sound.
             { apply existsb_exists. exists (kd, me). split; [assumption|]. cbn. now rewrite !N.eqb_refl. }
             congruence. }
           rewrite Hw. destruct (t_fin t); cbn; [rewrite (Hfin eq_refl)|]; reflexivity.
-        * destruct (guard_pass w t) eqn:Eg; [left; reflexivity|]. right. cbn [fst snd]. unfold nine_true.
-          rewrite (s_render _ _ _ _ Et Ed Ep Eg), (s_required _ _ _ _ Et Ed Ep Eg), (s_optional _ _ _ _ Et Ed Ep Eg),
-            (s_unparsable _ _ _ _ Et Ed Ep Eg), (s_nsbound _ _ _ _ Et Ed Ep Eg), (s_tracks _ _ _ _ Et Ed Ep),
-            (s_quiescent _ _ _ _ Et Ed Ep Eg). reflexivity.
-      + right. rewrite (absent_noop _ _ _ _ _ Et) in Ep. injection Ep as <- <-. reflexivity.
+        * unfold nine_true.
+          rewrite (s_render _ _ _ _ Et Ed Ep), (s_required _ _ _ _ Et Ed Ep), (s_optional _ _ _ _ Et Ed Ep),
+            (s_unparsable _ _ _ _ Et Ed Ep), (s_nsbound _ _ _ _ Et Ed Ep), (s_tracks _ _ _ _ Et Ed Ep),
+            (s_quiescent _ _ _ _ Et Ed Ep). reflexivity.
+      + rewrite (absent_noop _ _ _ _ _ Et) in Ep. injection Ep as <- <-. reflexivity.
   Qed.
 End Sound.
 
@@ -504,24 +484,21 @@ Qed.
 
 Section Sound2.
   Variables ivres ivopt : N.
-  Notation pass := (pass R SC ivres ivopt).
-  Notation do_step := (do_step R SC ivres ivopt).
-  Notation run := (run R SC ivres ivopt).
-  Notation final := (final R SC ivres ivopt).
+  Notation pass := (pass R SC ns_escalation ivres ivopt).
+  Notation do_step := (do_step R SC ns_escalation ivres ivopt).
+  Notation run := (run R SC ns_escalation ivres ivopt).
+  Notation final := (final R SC ns_escalation ivres ivopt).
 
-  Definition good (gc : bool * list bool) : Prop := fst gc = true \/ snd gc = nine_true.
-
-  Lemma steps_sound ss : forall w, Forall good (steps_clauses ivres ivopt w ss (run w ss)).
+  Lemma steps_sound ss : forall w, Forall (fun c => c = nine_true) (steps_clauses ivres ivopt w ss (run w ss)).
   Proof.
     induction ss as [|s ss IH]; intros w; cbn; [constructor|].
     pose proof (step_sound ivres ivopt w s) as H. destruct (do_step w s) as [w' o]. cbn. constructor; [exact H|apply IH].
   Qed.
 
-  Lemma clause_n_good n l : (n < 9)%nat -> Forall good l -> clause_n n true l = true.
+  Lemma clause_n_good n l : (n < 9)%nat -> Forall (fun c => c = nine_true) l -> clause_n n l = true.
   Proof.
-    intros Hn H. unfold clause_n. apply forallb_forall. intros gc Hin. rewrite Forall_forall in H.
-    destruct (H gc Hin) as [-> | ->]; [reflexivity|]. rewrite orb_true_iff. right.
-    do 9 (destruct n as [|n]; [reflexivity|]). lia.
+    intros Hn H. unfold clause_n. apply forallb_forall. intros c Hin. rewrite Forall_forall in H.
+    rewrite (H c Hin). do 9 (destruct n as [|n]; [reflexivity|]). lia.
   Qed.
 
   Lemma last_world_run ss : forall w, last_world w (run w ss) = final w ss.
@@ -535,24 +512,23 @@ Section Sound2.
     {| cc_ivres := ivres; cc_ivopt := ivopt; cc_init := w; cc_steps := ss; cc_init_obs := w; cc_obs := run w ss;
        cc_ref := ref_of (last_world w (run w ss)) |}.
 
-  Lemma final_sound w ss : let f := final_clause (model_case w ss) in fst f = true \/ snd f = true.
+  Lemma final_sound w ss : final_clause (model_case w ss) = true.
   Proof.
-    destruct ss as [|s0 ss0] using rev_ind; [right; reflexivity|]. clear IHss0.
+    destruct ss as [|s0 ss0] using rev_ind; [reflexivity|]. clear IHss0.
     unfold final_clause, model_case. cbn [cc_steps cc_obs cc_init_obs cc_ref].
     unfold cstep, cworld in *. rewrite rev_app_distr, run_snoc, rev_app_distr. cbn [rev app].
     assert (Hlw : forall (l : list (sobs * world tcode)) o x, last_world w (l ++ [(o, x)]) = x).
     { intros l o x. unfold last_world. rewrite map_app. cbn. apply last_last. }
     rewrite Hlw, rev_involutive, last_world_run. set (wp := final w ss0).
-    destruct s0; try (right; reflexivity).
+    destruct s0; try reflexivity.
     cbn [Template.do_step]. destruct (pass wp) as [w' r] eqn:Ep. cbn [fst snd].
-    destruct (live wp) as [t|] eqn:El; [|right; reflexivity].
+    destruct (live wp) as [t|] eqn:El; [|reflexivity].
     unfold live in El. destruct (w_tmpl wp) as [t0|] eqn:Et; [|discriminate]. destruct (t_del t0) eqn:Ed; [discriminate|].
     injection El as <-.
-    destruct (successful wp w' r && negb (self_write t0 r)) eqn:Es; [|right; reflexivity].
+    destruct (successful wp w' r && negb (self_write t0 r)) eqn:Es; [|reflexivity].
     apply andb_true_iff in Es. destruct Es as [Hsucc Hsw]. apply negb_true_iff in Hsw.
-    destruct (guard_pass wp t0) eqn:Eg; [left; reflexivity|right]. cbn [snd].
     destruct (successful_inv _ _ _ _ Et Ed Hsucc) as [He Hi].
-    destruct (success_equals_render _ _ _ _ _ _ _ _ Et Ed Ep (g_roots _ _ Eg) He Hi (self_write_false _ _ Hsw))
+    destruct (success_equals_render _ _ _ _ _ _ _ _ Et Ed Ep He Hi (self_write_false _ _ Hsw))
       as (t' & k & d & o & H1 & H2 & H3 & H4 & _).
     destruct (pass_table _ _ _ _ _ _ _ _ Et Ed Ep) as (_ & _ & _ & _ & _ & _ & (t2 & Ht2 & Hspec) & _).
     rewrite H1 in Ht2. injection Ht2 as <-. destruct Hspec as (Ens & _).
@@ -562,18 +538,17 @@ Section Sound2.
   Theorem monitor_sound w ss : monitor (model_case w ss) = true.
   Proof.
     unfold monitor, clause_vector, all_clauses. cbn [model_case cc_ivres cc_ivopt cc_init_obs cc_steps cc_obs].
-    pose proof (steps_sound ss w) as H. pose proof (final_sound w ss) as Hf.
+    pose proof (steps_sound ss w) as H. rewrite (final_sound w ss).
     cbn [forallb].
     rewrite (clause_n_good 0 _ ltac:(lia) H), (clause_n_good 1 _ ltac:(lia) H), (clause_n_good 2 _ ltac:(lia) H),
       (clause_n_good 3 _ ltac:(lia) H), (clause_n_good 4 _ ltac:(lia) H), (clause_n_good 5 _ ltac:(lia) H),
-      (clause_n_good 6 _ ltac:(lia) H), (clause_n_good 7 _ ltac:(lia) H), (clause_n_good 8 _ ltac:(lia) H). cbn [andb].
-    destruct Hf as [-> | ->]; [reflexivity|]. now rewrite orb_true_r.
+      (clause_n_good 6 _ ltac:(lia) H), (clause_n_good 7 _ ltac:(lia) H), (clause_n_good 8 _ ltac:(lia) H). reflexivity.
   Qed.
-
-  (** The model agrees with itself: [agree] is reflexive on model cases (sanity of the comparison functions). *)
 End Sound2.
 
-(** The unguarded monitor is refuted by the model itself: the witness of the known finding. *)
+(** The former witness of F-C18 (cluster-scoped source named with the template's own namespace): the
+    monitor accepts the model's run of it (the pass now reports Invalid), and it rejects the run the model
+    makes with the namespace check as it was before aa47ee3 - so a recurrence of the defect is reported. *)
 Definition witness_world : cworld :=
   {| w_store := [((3, 0, 1), {| o_data := [(1, 7)]; o_label := false; o_ctrl := 0; o_gen := 1; o_sobs := None; o_conds := [] |})];
      w_tmpl := Some {| t_ns := 1;
@@ -582,9 +557,15 @@ Definition witness_world : cworld :=
                        t_gen := 1; t_fin := false; t_del := false; t_invalid := 0; t_conds := []; t_ctrlof := None |};
      w_watch := []; w_env := 1 |}.
 
-Theorem monitor_strict_refuted :
-  monitor_strict (model_case 30 60 witness_world [SPass]) = false /\ monitor (model_case 30 60 witness_world [SPass]) = true.
-Proof. split; vm_compute; reflexivity. Qed.
+Definition v0_case (w : cworld) (ss : list cstep) : ccase :=
+  let obs := run R SC ns_escalation_v0 30 60 w ss in
+  {| cc_ivres := 30; cc_ivopt := 60; cc_init := w; cc_steps := ss; cc_init_obs := w; cc_obs := obs;
+     cc_ref := ref_of (last_world w obs) |}.
+
+Theorem monitor_rejects_v0 :
+  monitor (v0_case witness_world [SPass]) = false /\ agree (v0_case witness_world [SPass]) = false /\
+  monitor (model_case 30 60 witness_world [SPass]) = true.
+Proof. repeat split; vm_compute; reflexivity. Qed.
 
 (** A history in which everything the quiescence theorems assume holds (non-vacuity). *)
 Definition sample_world : cworld :=
@@ -598,11 +579,10 @@ Definition sample_world : cworld :=
 Definition sample_history : list cstep := [SPass; SPut (1, 1, 1) [(1, 6)] false; SPass].
 
 Lemma sample_ok :
-  let wp := final render_code scope_tbl 30 60 sample_world [SPass; SPut (1, 1, 1) [(1, 6)] false] in
-  let w := final render_code scope_tbl 30 60 sample_world sample_history in
-  let r := snd (pass render_code scope_tbl 30 60 wp) in
+  let wp := final render_code scope_tbl ns_escalation 30 60 sample_world [SPass; SPut (1, 1, 1) [(1, 6)] false] in
+  let w := final render_code scope_tbl ns_escalation 30 60 sample_world sample_history in
+  let r := snd (pass render_code scope_tbl ns_escalation 30 60 wp) in
   (exists t, w_tmpl wp = Some t /\ t_del t = false /\
-     forallb (fun s => negb (src_rootown scope_tbl (t_ns t) s)) (t_sources t) = true /\
      scan scope_tbl (pfbad scope_tbl (t_ns t)) (w_store wp) (t_ns t) (t_sources t) [] false = ScOk [(1, 6)] true) /\
   p_err r = 0 /\ p_requeue r = 60 /\ target_writes (p_evs r) = [((1, 1, 100), [(1, 6)])] /\
   (exists t', w_tmpl w = Some t' /\ t_invalid t' = 0 /\ expected render_code scope_tbl t' (w_store w) (w_env w) = Some ((1, 1, 100), [(1, 6)])).
